@@ -132,6 +132,29 @@ def run(ctx):
             v["expected"] = str(v["expected"])[:200]
             v["observed"] = str(v["observed"])[:200]
             res["violations"].append(v)
+    # one very large call per wrapper (2^20 + 1 blocks: beyond any "reasonable volume" limit a hardening might add): accepted,
+    # length preserved, inverse restores the data, first and last block as hand chaining gives them
+    nb = 2 ** 20 + 1
+    for alg in ("tdes", "aes"):
+        bs = 8 if alg == "tdes" else 16
+        kind = "des" if alg == "tdes" else "aes"
+        key, iv, data = rng.randbytes(KS[alg][-1]), rng.randbytes(bs), rng.randbytes(nb * bs)
+        for mode in ("ecb", "cbc"):
+            a = (key, iv, data) if mode == "cbc" else (key, data)
+            try:
+                enc = core.FUNCS["encrypt_%s_%s" % (alg, mode)](*a)
+                back = core.FUNCS["decrypt_%s_%s" % (alg, mode)](*(a[:-1] + (enc,)))
+                first = o.E(kind, key, o.xor(data[:bs], iv) if mode == "cbc" else data[:bs])
+                last = o.E(kind, key, o.xor(data[-bs:], enc[-2 * bs:-bs]) if mode == "cbc" else data[-bs:])
+                ok = len(enc) == len(data) and back == data and enc[:bs] == first and enc[-bs:] == last
+                obs = "length %d, inverse ok %s, first block ok %s, last block ok %s" % (len(enc), back == data, enc[:bs] == first, enc[-bs:] == last)
+            except Exception as e:  # noqa: BLE001
+                ok, obs = False, repr(e)[:200]
+            res["evaluations"] += 2
+            res["distribution"]["huge:%s_%s" % (alg, mode)] = nb
+            if not ok:
+                res["violations"].append({"what": "wrapper fails on a very large whole number of blocks", "expected": "encrypts %d blocks, inverse restores them" % nb,
+                                          "observed": obs, "input": {"fn": "encrypt/decrypt_%s_%s" % (alg, mode), "blocks": nb, "key": key.hex(), "data": "rng.randbytes(%d)" % (nb * bs)}})
     if ctx.thorough:
         sub = [b for b in big if len(b[1][-1]) <= 513 * 16]
         r2 = fw.call_result(sub, check_impl=None)
